@@ -250,10 +250,8 @@ def probe_config(base, test, family, reload=False, include=False):
         # model
         for rcv in receivers:
             sd = P.can_send(rules, uid[sender], gids[uid[sender]], pm, peers[rcv])
-            if not pm.has_destination:
-                sd0 = P.can_send(rules, uid[sender], gids[uid[sender]], pm, None)
-                if sd0 is P.UNSPEC or sd is P.UNSPEC or sd0 != sd:
-                    sd = P.UNSPEC if (sd0 is P.UNSPEC or sd is P.UNSPEC or sd0 != sd) else sd
+            # a broadcast is judged per recipient like everything else: "send_destination ... rules mean that messages may not
+            # be sent to ... the *owner* of the given name" (manual) holds for each connection the broadcast would reach
             rd = P.can_receive(rules, uid[rcv], gids[uid[rcv]], pm, peers[sender])
             delivered = any(o.body and o.body[0][1] == token and o.sender == sess.uname[sender] for o in got[rcv])
             if sd is P.UNSPEC or rd is P.UNSPEC:
@@ -309,6 +307,11 @@ def probe_config(base, test, family, reload=False, include=False):
         judge('call-othermember a.b', S, 'a.b', R.method_call(ser(S), 'a.b', '/other', 'other.i', 'Other', body()), P.Msg(1, 'other.i', 'Other', '/other'), ['R'])
         judge('signal-unicast a.b', S, 'a.b', R.signal(ser(S), '/p', 'p.i', 'M', body(), dest='a.b'), P.Msg(4, 'p.i', 'M', '/p'), ['R'])
         judge('signal-broadcast', S, None, R.signal(ser(S), '/p', 'p.i', 'M', body()), P.Msg(4, 'p.i', 'M', '/p', has_destination=False), ['R', 'Q'])
+        for nm_, mk_ in (('signal-replyserial a.b', lambda: R.signal(ser(S), '/p', 'p.i', 'M', body(), dest='a.b')),
+                         ('call-replyserial a.b', lambda: R.method_call(ser(S), 'a.b', '/p', 'p.i', 'M', body()))):
+            m_ = mk_()
+            m_.fields.append((R.F_REPLY_SERIAL, (b'u', 4242)))
+            judge(nm_, S, 'a.b', m_, P.Msg(4 if nm_.startswith('signal') else 1, 'p.i', 'M', '/p'), ['R'])
         judge('return-unrequested R', S, 'R', R.method_return(ser(S), 4242, sess.uname['R'], body()), P.Msg(2, requested_reply=False), ['R'])
         judge('error-unrequested R', S, 'R', R.error(ser(S), 4242, 'p.Err', sess.uname['R'], body()), P.Msg(3, error='p.Err', requested_reply=False), ['R'])
         judge('call-fd a.b', S, 'a.b', R.Msg(R.MT_CALL, 0, ser(S), [(R.F_PATH, (b'o', b'/p')), (R.F_INTERFACE, (b's', b'p.i')), (R.F_MEMBER, (b's', b'M')),
